@@ -136,6 +136,8 @@ namespace
         c.start_delay_max = sd[r.below(3)];
         static const double pd[] = { 0.0, 0.0, 1e-3, 1e-2 };
         c.preempt_density = pd[r.below(4)];
+        static const double pb[] = { 0.0, 0.0, 0.2, 0.5 };
+        c.preempt_burst = pb[r.below(4)];
         c.sched_seed = r.next();
         c.step_budget = 400000;
         return c;
